@@ -114,12 +114,15 @@ def gen_parameter_set(rng):
     spec = []
     for i in range(n):
         label = f"p{i}" if rng.integers(2) else f"{rng.choice(['rates', 'irf', 'a.b'])}.{rng.choice(['k', 'c'])}{i}"
-        kind = str(rng.choice(["free", "fixed", "bounded", "lower", "upper", "nonneg", "nonneg_bounded", "expr"]))
+        kind = str(rng.choice(["free", "fixed", "bounded", "lower", "upper", "nonneg", "nonneg_bounded", "expr", "nonneg_fixed"]))
         mag = 10.0 ** float(rng.integers(-12, 13))
         v = float(rng.uniform(0.1, 9.9)) * mag * (1 if kind.startswith("nonneg") or rng.integers(2) else -1)
         kw = {"label": label, "value": v}
         if kind == "fixed":
             kw["vary"] = False
+        elif kind == "nonneg_fixed":
+            kw["vary"] = False
+            kw["non_negative"] = True
         elif kind in ("bounded", "nonneg_bounded"):
             w = abs(v) * float(rng.choice([0.0, 1e-12, 0.5]))
             kw["minimum"], kw["maximum"] = v - (w if rng.integers(2) else 0.0), v + w + abs(v) * 0.1
@@ -172,6 +175,34 @@ def check_roundtrip(rng, rec):
         a, b = before[l], after[l]
         if not (a == b or abs(a - b) <= 1e-9 * abs(a) or (a != a and b != b)):
             rec.violation("roundtrip-not-identity", ctx, f"{l}: {a!r} -> {b!r}")
+    # the same with ALL labels (what a parameter history row holds) and through a ParameterHistory: fixed parameters,
+    # also log-transformed ones, keep their value
+    from glotaran.parameter import ParameterHistory
+
+    labels2, x2, _, _ = p.get_label_value_and_bounds_arrays(exclude_non_vary=False)
+    hist = ParameterHistory()
+    hist.append(p)
+    p.set_from_label_and_value_arrays(labels2, x2)
+    after2 = {q.label: float(q.value) for q in p.all()}
+    rec.count("roundtrips_all_labels")
+    for l in before:
+        a, b = before[l], after2[l]
+        if not (a == b or abs(a - b) <= 1e-9 * abs(a) or (a != a and b != b)):
+            kind = next((sp["kind"] for sp in spec if sp["label"] == l), "?")
+            rec.violation(f"roundtrip-all-labels-not-identity:{kind}", ctx, f"{l}: {a!r} -> {b!r} after get_label_value_and_bounds_arrays(exclude_non_vary=False) / set_from_label_and_value_arrays")
+            return spec
+    if len(labels):
+        p.set_from_label_and_value_arrays(labels, x + 0.01 * (np.abs(x) + 1.0))
+        hist.append(p)
+    p.set_from_history(hist, 0)
+    after3 = {q.label: float(q.value) for q in p.all()}
+    rec.count("roundtrips_history")
+    for l in before:
+        a, b = before[l], after3[l]
+        if not (a == b or abs(a - b) <= 1e-9 * abs(a) or (a != a and b != b)):
+            kind = next((sp["kind"] for sp in spec if sp["label"] == l), "?")
+            rec.violation(f"history-restore-not-identity:{kind}", ctx, f"{l}: {a!r} -> {b!r} after ParameterHistory.append / set_from_history(0)")
+            return spec
     return spec
 
 
